@@ -169,9 +169,11 @@ def verify(rep, prop, fn, spec, timeout=60000, B=2, backend='z3-qf(typed-instant
         rep.add(core.Ob(f'{prop}/{fn.name}/engine-subset{tag}', fn, 'pyvc', core.UNKNOWN, 0.0, detail=f'outside the engine subset: {e}', clause='function within the verified Python subset')); return []
     res = pyvc.decide_parallel(E, spec, timeout=timeout, B=B)
     counts = {}; out = []
+    import re
+    rel = lambda label: re.sub(r'@(\d+)', lambda mo: f'@+{int(mo.group(1)) - fn.line}', label)     # line numbers relative to the `def` line: ids survive edits elsewhere in the file
     for ob, st, dt, det, mv in res:
-        k = counts.get(ob.label, 0); counts[ob.label] = k + 1
-        o = core.Ob(f'{prop}/{fn.name}/{ob.label}{tag}' + (f'#{k}' if k else ''), fn, backend, st, dt, detail=det if st != 'refuted' else f'{det}: {mv}', clause=ob.label)
+        lab = rel(ob.label); k = counts.get(lab, 0); counts[lab] = k + 1
+        o = core.Ob(f'{prop}/{fn.name}/{lab}{tag}' + (f'#{k}' if k else ''), fn, backend, st, dt, detail=det if st != 'refuted' else f'{det}: {mv}', clause=ob.label)
         if st == 'refuted':
             # the counter-model lives in the VC's vocabulary (heap snapshots, ghost counters); a concrete failing input is searched natively in the helper's small scope
             fb = fallback(ob.label) if fallback else None
